@@ -51,6 +51,7 @@ structure RWrite where
 inductive REv where
   | req (host port : Nat) (https : Bool)     -- target as written by the client (absolute-form URL / Host header)
   | connect (host port : Nat)
+  | drop                                     -- every upstream connection of this client connection is closed
   deriving DecidableEq, Repr
 
 structure ROut where
@@ -79,6 +80,9 @@ def writesOn (auth : Bool) (m : Mode) (c : UpConn) (connectDone : Bool) (schemeH
 def rstep (auth : Bool) (m : Mode) (tunneled : Bool) (s : CState) (e : REv) : CState × ROut :=
   match s.phase, e with
   | .closed, _ => (s, { kind := .ignored })
+  -- closed connections are never handed out again (`connection.connected` is false): the pool is gone, and the
+  -- context connection, when next needed, is replaced by a new one with the same parameters (and a new CONNECT)
+  | _, .drop => ({ s with pool := [], ctxUsed := false }, { kind := .noop })
   | .outer, .connect host port =>
     if m.isHttpProxy then
       ({ phase := .tunnel, ctx := some ⟨host, port, false, none, m == Mode.upstream, m == Mode.upstream, 0⟩,
